@@ -98,8 +98,8 @@ Definition c17_reorder (snode seps : list (list N)) (post ordering : list N)
      && natlist_eqb no (nn ordering')
   then 0%N else 2%N.
 
-(** model validation of the merge strategies and of the no-merge pipeline (information only,
-    code 2): the decisions taken by the implementation's strategy objects (hook merge_trace)
+(** BINDING ties (codes 41 parent-child, 42 clique-graph, 43 no-merge premises; a disagreement is
+    a violation: the theorems about the models would no longer be about the code): the decisions taken by the implementation's strategy objects (hook merge_trace)
     against the Gallina models whose step lemmas are proved (MergePC, MergeCG), and the boolean
     premises of [NoMerge.nomerge_valid_partial] evaluated on the implementation's factor
     pattern, supernodes, separators and parents. *)
@@ -119,7 +119,7 @@ Definition par_eqb (a b : PostOrder.par) : bool :=
 Definition c17_nomerge (adj snodes seps : list (list nat)) (sp : list (option nat)) : N :=
   if NoMerge.wf_b adj && NoMerge.filled_b adj && NoMerge.ps_ok adj snodes sp
      && natll_eqb (map (NoMerge.separator adj) snodes) seps
-  then 0%N else 2%N.
+  then 0%N else 43%N.
 Definition c17_merge_pc (snode sep : list (list nat)) (parent : list PostOrder.par) (post : list nat)
            (decisions : list (nat * nat * bool)) (end_snode : list (list nat))
            (parent' : list PostOrder.par) (post' : list nat) : N :=
@@ -129,12 +129,12 @@ Definition c17_merge_pc (snode sep : list (list nat)) (parent : list PostOrder.p
      && (length (MergePC.parent st) =? length parent')%nat
      && forallb (fun ab => par_eqb (fst ab) (snd ab)) (combine (MergePC.parent st) parent')
      && match MergePC.pc_final_post st with Some l => natlist_eqb l post' | None => false end
-  then 0%N else 2%N.
+  then 0%N else 41%N.
 Require Clarabel.Chordal.MergeCG.
 Definition c17_merge_cg (snode sep : list (list nat)) (decisions : list (nat * nat * bool))
            (end_snode : list (list nat)) : N :=
   let '(dec, cl) := MergeCG.cg_run snode sep in
-  if dec_eqb dec decisions && natll_eqb (map Reorder.isort cl) end_snode then 0%N else 2%N.
+  if dec_eqb dec decisions && natll_eqb (map Reorder.isort cl) end_snode then 0%N else 42%N.
 
 (** [CscMatrix::index_to_coord] (used by the fallback scan of the clique-graph strategy) against
     the proved CSC model of C16: k-th stored entry -> (rowval[k], the column whose range holds k) *)
@@ -146,3 +146,46 @@ Definition c17_idx2coord (m n : N) (cp rv : list N) (idx : N) (out : option (N *
   | None, None => 0%N
   | _, _ => 1%N
   end.
+
+(** BINDING tie (code 44): the factor pattern the implementation obtains (QDLDL logical
+    factorisation of the permuted pattern + connect_graph, hook factor_columns) equals
+    [SymbolicFill.factor_pattern], which is proved WF and Filled for every input. *)
+Require Clarabel.Chordal.SymbolicFill.
+Definition c17_fill (n : nat) (edges : list (nat * nat)) (cols : list (list nat)) : N :=
+  if natll_eqb (SymbolicFill.factor_pattern n edges) cols then 0%N else 44%N.
+
+(** BINDING ties (46, 47) for the tree rebuilt by the clique-graph strategy: the edges taken by
+    the implementation's kruskal on the clique graph it was handed equal the proved model's
+    (maximum-weight spanning forest over the proved union-find), and the parent vector, supernodes
+    and separators after determine_parent_cliques / post_order / split_cliques equal the model's. *)
+Require Clarabel.Chordal.Kruskal Clarabel.Chordal.SplitCliques.
+Definition c17_kruskal (n target : nat) (edges : list (nat * nat * BinNums.Z)) (taken : list bool) : N :=
+  match Kruskal.kruskal_sorted n target edges with
+  | Some fl => if blist_eqb fl taken then 0%N else 46%N
+  | None => 46%N
+  end.
+Definition c17_cgtree (cliques : list (list nat)) (mst alle : list (nat * nat)) (vlast : nat)
+           (parent' : list PostOrder.par) (post' : list nat) (snode' sep' : list (list nat)) : N :=
+  let parent := SplitCliques.determine_parent_cliques cliques vlast mst in
+  let ncl := length (filter (fun c => match c with [] => false | _ => true end) cliques) in
+  match PostOrder.post_order parent ncl with
+  | Some post =>
+      let '(sn, sp) := SplitCliques.split_cliques cliques parent post in
+      if (length parent =? length parent')%nat
+         && forallb (fun ab => par_eqb (fst ab) (snd ab)) (combine parent parent')
+         && natlist_eqb post post'
+         && natll_eqb (map Reorder.isort sn) snode' && natll_eqb (map Reorder.isort sp) sep'
+      then 0%N else 47%N
+  | None => 47%N
+  end.
+(** BINDING tie (45): supernodes and supernode parents found by the implementation
+    (pothen_sun + find_supernodes on the etree / post-order / degrees of its factor pattern) equal
+    those of the proved model [PothenSun.nomerge_tree]. *)
+Require Clarabel.Chordal.PothenSun.
+Definition optnat_eqb (a b : option nat) : bool :=
+  match a, b with Some x, Some y => Nat.eqb x y | None, None => true | _, _ => false end.
+Definition c17_ps (adj snodes : list (list nat)) (sp : list (option nat)) : N :=
+  let '(sn, sq) := PothenSun.nomerge_tree adj in
+  if natll_eqb sn snodes && (length sq =? length sp)%nat
+     && forallb (fun ab => optnat_eqb (fst ab) (snd ab)) (combine sq sp)
+  then 0%N else 45%N.
